@@ -164,12 +164,15 @@ Definition stateful_post (u : list val -> val -> val) (t : Z) (pr : rdd) (n : ns
          end
   end.
 
+(* the part of TransformedDStream._step after the parent was stepped: nothing but the guard time changes while
+   the parent has not produced an RDD (`if self._prev._current_rdd is None: return`) *)
 Definition trans_post (f : tfun) (t : Z) (pr : rdd) (n : nstate) : nstate * list logentry * option string :=
   let n1 := set_time t n in
-  match apply_tfun f t pr with
-  | Ok (r, lg) => (set_rdd r n1, lg, None)
-  | Err e => (n1, [], Some e)
-  end.
+  if is_none_rdd pr then (n1, [], None)
+  else match apply_tfun f t pr with
+       | Ok (r, lg) => (set_rdd r n1, lg, None)
+       | Err e => (n1, [], Some e)
+       end.
 
 Definition put (i : nat) (n : nstate) (st : gstate) : gstate := updn i (fun _ => n) st.
 Definition add_log (lg : list logentry) (st : gstate) : gstate := mkG (gnodes st) (glog st ++ lg).
